@@ -2,12 +2,12 @@
 (* C16: recorded template applications validated against Template.tla.
    kind "apply":    S, T (pat, rep, del), mu (the k-th match), P (the k-th product, aromatic-ring fixing off), images (the atom sets of all
                     matches the matcher reports), nprod (number of products), bad (atoms of P in valence error, as the library reports),
-                    rt (1 when reading the product's canonical text gives the product back)
+                    rt (1 when reading the product's canonical text gives the product back; claimed inside the symmetry domain of C01, Pdom)
    kind "identity": S, P: a template whose replacement is its pattern
    kind "doc":      a documented template test of the deprotection collection: same = 1 when the product is the documented one
    kind "reactor":  ref / alt: canonical strings of the product sets of one Reactor on the same reactants given in two orders and numberings;
                     numbers: per reaction, the atom numbers of all product molecules (must be unique) *)
-EXTENDS Template, Aromatic, Json
+EXTENDS Template, Aromatic, Json, Sym
 CONSTANT CH
 R == JsonDeserialize("data.json")
 N == Len(R)
@@ -18,7 +18,7 @@ ApplyV(r) ==
   ApplyVerdict(r.S, r.T, r.mu, r.P)
   \cup If(r.nprod # Len(r.images), "number-of-products-is-not-the-number-of-matches")
   \cup If(r.filtered = 1 /\ \E a, b \in 1..Len(r.images) : a < b /\ Rng(r.images[a]) = Rng(r.images[b]), "two-products-for-one-set-of-matched-atoms")
-  \cup If(r.valid = 1 /\ r.bad = 0 /\ ~LeavesOpenValence(r.S, r.T, r.mu) /\ r.rt # 1, "product-is-not-the-molecule-its-own-text-denotes")
+  \cup If(r.valid = 1 /\ r.bad = 0 /\ ~LeavesOpenValence(r.S, r.T, r.mu) /\ r.rt # 1 /\ InDomainC01(r.Pdom), "product-is-not-the-molecule-its-own-text-denotes")
   \cup If(r.valid = 1 /\ ~LeavesOpenValence(r.S, r.T, r.mu) /\ (r.bad # 0 \/ ~ValenceValid(r.Pp)), "product-with-a-valence-error")
 IdentityV(r) ==
   If({ Full(a) : a \in Rng(r.S.atoms) } # { Full(a) : a \in Rng(r.P.atoms) } \/ Rng(r.S.bonds) # Rng(r.P.bonds), "identity-template-changes-the-molecule")
